@@ -1444,7 +1444,7 @@ func init() {
 		if err != nil {
 			return err
 		}
-		gen := [2]bool{}
+		lastKey := ""
 		res := func(a string) ([]byte, bool, error) {
 			if a != "G1" && a != "G2" {
 				return nil, false, nil
@@ -1452,8 +1452,9 @@ func init() {
 			i := int(a[1] - '1')
 			sks := "bls.1"
 			if strings.HasPrefix(in.K[i], "bls.") {
-				sks, gen[i] = in.K[i], true
+				sks = in.K[i]
 			}
+			lastKey = sks
 			s, err := c09Genuine(sks, data, "xof")
 			return s, true, err
 		}
@@ -1461,13 +1462,13 @@ func init() {
 		if err != nil {
 			return err
 		}
-		g1 := gen[0]
-		gen = [2]bool{}
+		g1 := lastKey != "" && lastKey == in.K[0] // a genuine proof of the key it is presented with
+		lastKey = ""
 		p2, err := in.b(1, res)
 		if err != nil {
 			return err
 		}
-		g2 := gen[1]
+		g2 := lastKey != "" && lastKey == in.K[1]
 		r.F("pk1.nonbls", c09b2i(c09KeyAlgo(in.K[0]) != 1))
 		r.F("pk2.nonbls", c09b2i(c09KeyAlgo(in.K[1]) != 1))
 		r.F("pk1.isIdentity", c09b2i(in.K[0] == "id"))
